@@ -14,7 +14,7 @@ def pty_sessions(ctx):
     for f in ("sessions.v", "sessions.json", "current_session.json"):
         try:
             os.remove(os.path.join(out, f))
-        except OSError:
+        except OSError as e:
             pass
     cmd = [ctx["exe"], "tool", "pty16", "--out", out, "--seed", str(ctx["seed"]), "--tier", ctx["tier"]]
     if ctx.get("replay"):
@@ -54,7 +54,7 @@ def pty_sessions(ctx):
     for junk in ("sessions.vo", "sessions.vok", "sessions.vos", ".sessions.aux"):
         try:
             os.remove(os.path.join(out, junk))
-        except OSError:
+        except OSError as e:
             pass
     m = re.search(r"=\s*(\[.*?\])\s*:\s*list \(N \* bool \* bool\)", text, re.S)
     if rc != 0 or not m:
@@ -88,8 +88,8 @@ def pty_sessions(ctx):
                 cov["queue_" + tag] = dist.get(tag, 0)
                 if not dist.get(tag, 0):
                     missing.append("queue histories with " + tag)
-        except OSError:
-            pass
+        except OSError as e:
+            missing.append("queue reach counters unreadable (%s)" % e)
         if missing:
             violations.append({"kind": "broken-correspondence",
                                "what": "the pty sessions did not reach: %s (fault script hook of Tty::write not effective, or generator changed)" % ", ".join(missing),
